@@ -97,7 +97,7 @@ func installerFaultBody(r *explore.Run, rep *report.R, sc string, cases []instCa
 	}
 
 	s := build()
-	inj := &xrh.FaultInjector{Run: r, Reads: true}
+	inj := &xrh.FaultInjector{Run: r, Reads: true, NotFoundReads: true}
 	s.Inj = inj
 	inj.Armed = true
 	res1 := runInstaller(s)
